@@ -39,6 +39,8 @@ func c08(c *Ctx) {
 	c08kindEstablished(c, pkg)
 	c08contentLengthReadOnly(c)
 	c17yamlNotStrict(c, "C08.R18")
+	// R19 (round 9): a YAML null must stay null on its way to the validating unmarshaller (C17.R10: the decoder-output model)
+	runShared(c, "C17.R10", "C08.R19", c17decoderModel)
 	c08validBeforeUse(c, pkg)
 	c08durationByType(c, pkg)
 	if os.Getenv("GZV_MEMO_SCAN") != "" {
